@@ -64,6 +64,9 @@ def gen_kwargs(rng, small_years=True):
     if rng.random() < 0.15: kw["byhour"] = some(list(range(24)))
     if rng.random() < 0.15: kw["byminute"] = some(list(range(60)))
     if rng.random() < 0.15: kw["bysecond"] = some(list(range(60)))
+    if rng.random() < 0.08:
+        # an EMPTY sequence for a BY argument (C01's space has them): recorded as () in _original_rule, printed as nothing
+        kw[rng.choice(["bymonth", "bymonthday", "byyearday", "byweekno", "byweekday", "byeaster", "bysetpos", "byhour", "byminute", "bysecond"])] = rng.choice([(), []])
     r2 = rng.random()
     if r2 < 0.4:
         kw["count"] = rng.randint(0, 6)
@@ -623,6 +626,8 @@ def oracle_options(ctx):
         freq, ds, kw = gen_kwargs(rng, small_years=False)
         if kw.get("interval", 1) < 1:
             kw["interval"] = 1
+        # empty BY sequences cannot be spelled in text at all (D-C13-empty-by-list is met by the round-trip section)
+        kw = {k: v for k, v in kw.items() if not (isinstance(v, (tuple, list)) and len(v) == 0)}
         if rng.random() < 0.5 and "until" not in kw:
             kw.pop("count", None)
             kw["until"] = ds + datetime.timedelta(days=rng.randint(1, 900), seconds=rng.randint(0, 86399))
@@ -742,7 +747,22 @@ def oracle(ctx):
         if shown < 3:
             ctx.sample({"str(rule)": s, "first": [d.isoformat() for d in base[:3]]}); shown += 1
         if got != base:
-            ctx.violation("rrulestr(str(rule)) generates different occurrences", {"kind": "roundtrip", "text": s, "kwargs": repr(kw), "freq": freq, "dtstart": ds.isoformat()},
+            case = {"kind": "roundtrip", "text": s, "kwargs": repr(kw), "freq": freq, "dtstart": ds.isoformat()}
+            empty_by = sorted(k for k, v in kw.items() if k.startswith("by") and isinstance(v, (tuple, list)) and len(v) == 0)
+            if empty_by:
+                # D-C13-empty-by-list is claimed only when (1) the model agrees with the implementation on this very rule, for
+                # str() and for the parse of that text, and (2) the reparsed occurrences are exactly those of the same
+                # keyword arguments WITHOUT the empty parts (i.e. the difference is the re-derived default and nothing else)
+                case["empty_by"] = empty_by
+                try:
+                    res, _ = impl_parse(s)
+                    m = ctx.driver([str_request(r), "rrs.parse 0000000 %s" % hexs(s)])
+                    case["model_agrees_with_implementation"] = bool(m[0] == "ok " + hexs(s) and canon_impl(res, m[1]) == m[1])
+                    without = build(freq, ds, {k: v for k, v in kw.items() if k not in empty_by})
+                    case["explained_by_default_of_dropped_part"] = bool(head(iter(without)) == got)
+                except Exception as ex:
+                    case["model_agrees_with_implementation"] = False; case["matcher_error"] = repr(ex)
+            ctx.violation("rrulestr(str(rule)) generates different occurrences", case,
                           {"rule": [d.isoformat() for d in base[:4]], "reparsed": [d.isoformat() for d in got[:4]]})
             continue
         # (2) spellings mean the same as the keyword construction
@@ -796,7 +816,14 @@ def oracle(ctx):
             except (ValueError, Timeout):
                 ctx.count("skipped_ctor_or_slow")
 
-KNOWN = {}
+def empty_by_list(case):
+    """D-C13-empty-by-list, tight: an empty BY sequence among the arguments, the model reproduces the implementation's str()
+    and parse on this rule, and the reparsed occurrences are those of the arguments without the empty parts"""
+    return (case.get("kind") == "roundtrip" and bool(case.get("empty_by"))
+            and case.get("model_agrees_with_implementation") is True
+            and case.get("explained_by_default_of_dropped_part") is True)
+
+KNOWN = {"D-C13-empty-by-list": lambda v: empty_by_list(v["case"])}
 
 def replay(ctx, payload):
     """re-evaluate the recorded failing case on the current tree (option cases are rebuilt from the recorded rule,
